@@ -359,6 +359,12 @@ func corpus() []caseT {
 		{Cfg: f[1], Prog: pr(th(ld(2, 0), ld(2, 0)), th(df(1, 0, 0)), th(df(2, 0, 1))), Note: "define in parent and child"},
 		{Cfg: f[1], Prog: pr(th(ld(2, 0), hs(2, 0)), th(df(1, 0, 0), ld(1, 0)))},
 		{Cfg: f[1], Prog: pr(th(ld(2, 0)), th(hs(2, 0), df(1, 0, 4)), th(hs(1, 0), df(2, 0, 1))), Note: "name bound in parent and child while a load is between the two"},
+		// the FIRST operations of a fresh file based loader (the path index is built on demand; yield point index.building)
+		{Cfg: f[4], Prog: pr(th(hs(2, 0)), th(ld(2, 1))), Note: "fresh loader: HasEntry while another name is loaded"},
+		{Cfg: f[4], Prog: pr(th(hs(2, 0)), th(hs(2, 1))), Note: "fresh loader: HasEntry || HasEntry"},
+		{Cfg: f[2], Prog: pr(th(hs(1, 0), ld(1, 0)), th(hs(1, 0))), Note: "fresh loader: HasEntry first, then Load"},
+		{Cfg: f[2], Prog: pr(th(hs(1, 0)), th(ld(1, 0)), th(hs(1, 0))), Note: "fresh loader: HasEntry, Load, HasEntry"},
+		{Cfg: f[3], Prog: pr(th(hs(2, 0)), th(ld(2, 0), hs(1, 0))), Note: "fresh loader below a child: HasEntry through the child"},
 		{Cfg: f[2], Prog: pr(th(ld(1, 0)), th(ld(1, 0))), Note: "two loads of a file name"},
 		{Cfg: f[2], Prog: pr(th(ld(1, 0), ld(1, 0)), th(ld(1, 0), ld(1, 0)))},
 		{Cfg: f[2], Prog: pr(th(ld(1, 0)), th(ld(1, 0)), th(ld(1, 0))), Note: "three loads of a file name"},
